@@ -10,6 +10,7 @@ import (
 	_ "verifmc/checks/c06"
 	_ "verifmc/checks/c07"
 	_ "verifmc/checks/c08"
+	_ "verifmc/checks/c09"
 	_ "verifmc/checks/c12"
 	_ "verifmc/checks/c15"
 	_ "verifmc/checks/c18"
